@@ -19,8 +19,10 @@ pub enum SearchEvent {
     TaskBegin { index: usize },
     /// Emitted when a root-move task finishes (also on unwind).
     TaskEnd { index: usize },
-    /// Emitted just before the shared result cache is probed.
+    /// Emitted just before the shared result cache is probed. `key` is the debug
+    /// rendering of whatever the cache is keyed by; the other fields describe the node.
     CacheRead {
+        key: String,
         hash: u64,
         alpha: i16,
         beta: i16,
@@ -30,14 +32,7 @@ pub enum SearchEvent {
     /// Emitted just after the probe, with its outcome.
     CacheReadDone { hit: Option<i16> },
     /// Emitted just before the shared result cache is written.
-    CacheWrite {
-        hash: u64,
-        alpha: i16,
-        beta: i16,
-        depth: u8,
-        maximizing: bool,
-        value: i16,
-    },
+    CacheWrite { key: String, value: i16 },
 }
 
 pub trait SearchObserver: Send + Sync {
@@ -53,23 +48,32 @@ pub fn set_search_observer(observer: Option<Arc<dyn SearchObserver>>) {
     *slot = observer;
 }
 
+/// Builds the event only when an observer is installed.
 #[inline]
-pub fn emit(event: SearchEvent) {
+pub fn emit_with<F: FnOnce() -> SearchEvent>(make_event: F) {
     if !OBSERVER_INSTALLED.load(Ordering::Relaxed) {
         return;
     }
     let observer = OBSERVER.read().unwrap().clone();
     if let Some(observer) = observer {
-        observer.on_event(&event);
+        observer.on_event(&make_event());
     }
 }
 
-/// Emits `TaskEnd` when dropped.
-pub struct TaskGuard(pub usize);
+/// Emits `TaskBegin` when created and `TaskEnd` when dropped.
+pub struct TaskGuard(usize);
+
+impl TaskGuard {
+    pub fn begin(index: usize) -> Self {
+        emit_with(|| SearchEvent::TaskBegin { index });
+        TaskGuard(index)
+    }
+}
 
 impl Drop for TaskGuard {
     fn drop(&mut self) {
-        emit(SearchEvent::TaskEnd { index: self.0 });
+        let index = self.0;
+        emit_with(|| SearchEvent::TaskEnd { index });
     }
 }
 
